@@ -24,12 +24,11 @@ import (
 // provenance, validated-proof propagation and upstream-requiring chases —
 // answers exactly as before.
 //
-// One knowing divergence: hop entries served through the composer do not
-// tick their own hit/prefetch machinery (the Msg path's chase reaches them
-// through the internal sub-pipeline, which does). A hop that expires ages
-// out of the walk, the next hit declines to the Msg path, and the ordinary
-// chase re-resolves and re-admits it — self-healing at the cost of one
-// decoded serve.
+// Hop entries served through the composer do not tick their own hit
+// statistics (the Msg path's chase reaches them through the internal
+// sub-pipeline, which does). Their prefetch is not skipped, though: a hop
+// that is due for a refresh makes the walk decline, so the ordinary chase
+// claims the prefetch exactly as it would have without the byte path.
 
 const (
 	// maxWireChaseHops mirrors the Msg-path chase depth.
@@ -228,6 +227,15 @@ func (c *Cache) collectWireChase(
 		next := c.checkCache(key)
 		if next == nil || next.wireServe&wireEligible == 0 ||
 			!entryMatchesWireQuestion(next, target, qtype, qclass, cd) {
+			return 0, false
+		}
+		// A hop that is due for a background refresh needs the ordinary
+		// chase: it reaches the hop through the internal pipeline, whose hit
+		// path claims and queues the prefetch. Composing from bytes here
+		// would leave the hop to run out instead, and which path served the
+		// alias would decide what is cached afterwards. (The alias entry's
+		// own prefetch-due check runs before the composer is entered.)
+		if c.prefetchQueue != nil && next.PrefetchEligible() && next.ShouldPrefetch(c.config.Prefetch) {
 			return 0, false
 		}
 		entry = next
